@@ -315,6 +315,9 @@ class ConcreteDom:
 # ---------------------------------------------------------------------------------------------
 
 
+TRAILING_DEPARTURES = ("bz", "bnz", "switch", "match", "callsub")
+
+
 @dataclass
 class PathResult:
     accepted: bool
@@ -323,6 +326,7 @@ class PathResult:
     cond: Any = None  # symbolic: list of z3 constraints of the path
     abs_reads: List[int] = field(default_factory=list)  # pcs of reads by absolute index on the path
     fail_reason: str = ""
+    fell_off: bool = False  # the execution ended behind the last instruction of the text (no return / err)
 
 
 @dataclass
@@ -340,6 +344,7 @@ class _State:
     counts: Dict[int, int]  # executions of each pc on this path (names of fresh values)
     steps: int
     abs_reads: Tuple[int, ...]
+    padded: bool = False  # FREE: a value below the tracked stack was used (the stack height is no longer known)
 
 
 class Executor:
@@ -440,7 +445,7 @@ class Executor:
             # the execution ends before the dispatch path is completed: it does not start with the path
             # (relaxed reading, used only to attribute KF-C12-early-exit-in-callee: ending inside a call is tolerated)
             accepted = bool(self.prefix_early_exit_ok and st.entries)
-        res = PathResult(accepted, list(st.trace), cut, None, list(st.abs_reads), why)
+        res = PathResult(accepted, list(st.trace), cut, None, list(st.abs_reads), why, cut is None and st.pc >= len(self.p.ins))
         if self.on_path is not None:
             self.on_path(res, st)
         self.results.append(res)
@@ -469,6 +474,12 @@ class Executor:
                 # fell off the end: exactly one value, non-zero
                 if self.mode == "EXACT" and len(st.stack) != 1:
                     self._finish(st, False, why="stack size at end")
+                    return
+                if self.mode == "FREE" and not st.padded and len(st.stack) != 1 and p.ins and p.ins[-1].op in TRAILING_DEPARTURES:
+                    # the program text ends in a conditional branch / switch / match / callsub and this execution falls
+                    # off the end behind it with a stack whose height is known and is not 1: the AVM rejects it, and no
+                    # reading makes it a successful execution (tealer has no leaf block for it either)
+                    self._finish(st, False, why="stack size at end (behind a trailing branch)")
                     return
                 if not st.stack:
                     # EXACT: the AVM requires exactly one value; FREE: stack shape is not a direct check
@@ -528,14 +539,19 @@ class Executor:
         self._cur = st
         self._shn = 0
 
+        did_pad = False
+
         def cont(new_stack: Tuple[V, ...], pc: Optional[int] = None, **kw: Any) -> _State:
+            if did_pad:
+                kw.setdefault("padded", True)
             return _replace(base, stack=new_stack, pc=(st.pc + 1 if pc is None else pc), **kw)
 
         def need(n: int) -> None:
-            nonlocal stack
+            nonlocal stack, did_pad
             if len(stack) < n:
                 if exact:
                     raise Fail("stack underflow")
+                did_pad = True
                 pad = tuple(V(self._fresh(st, f"below{j}"), None) for j in range(n - len(stack)))
                 stack = pad + stack
 
